@@ -232,3 +232,145 @@ def builder_isolation(v1: int, v2: int) -> bool:
     return (c1.config.get_config_value(sec, Language.WKCV_DEFINITION_FILE_EXTENSION) == ext1 == ".x" + str(v1)
             and dict(c1.get_target_language().get_options()) == opt1 and opt1["zz"] == v1 and opt1["target_endianness"] == "little"
             and snap(c1.config.sections()[sec].get("options")) == sn1)
+
+
+# ------------------------------------------------------------------------------------------------ shorthand: documented group as a unit
+# docs/languages.rst documents what -std=c++17-pmr / cetl++14-17 stand for: these option keys (plus std / std_flavor themselves)
+_DOC_GROUP = ["variable_array_type_include", "variable_array_type_template", "variable_array_type_constructor_args",
+              "allocator_include", "allocator_type", "allocator_is_default_constructible", "ctor_convention"]
+
+
+def shorthand_unit(std_i: int, explicit_bits: int) -> bool:
+    """
+    pre: 3 <= std_i < len(_STDS) and 0 <= explicit_bits < 128
+    pre: _STD_ONLY < 0 or std_i == _STD_ONLY
+    post: _
+    """
+    # "set their documented group of options as a unit": whatever the user gave for members of the documented group, the
+    # effective group is the shorthand's own -- user values never survive and mix with it
+    std = _STDS[std_i]
+
+    def run(bits: int):
+        opts = dict(_BASEOPTS)
+        opts["std"] = std
+        for i, k in enumerate(_DOC_GROUP):
+            if (bits >> i) & 1:
+                opts[k] = "uses-leading-allocator" if k == "ctor_convention" else "user-" + k
+        return _CPP._validate_language_options(copy.deepcopy(_DEFS), opts)
+
+    try:
+        out = run(explicit_bits)
+        ref = run(0)
+    except ValueError:
+        return False
+    return all(out[k] == ref[k] for k in _DOC_GROUP)
+
+
+# ------------------------------------------------------------------------------------------------ full precedence chain through the builder
+class _H:
+    def __init__(self, path: str) -> None:
+        self.path = path
+
+    def __enter__(self):
+        return self
+
+    def __exit__(self, *a):
+        return False
+
+
+_DOCS: dict = {}
+
+
+def _fake_open(path, mode="r", encoding=None, **kw):
+    return _H(str(path))
+
+
+def _fake_yaml_loader(stream, Loader=None):
+    if isinstance(stream, _H):
+        return copy.deepcopy(_DOCS[stream.path])
+    return _REAL_YAML_LOADER(stream, Loader=Loader)       # the built-in properties.yaml is parsed for real
+
+
+import nunavut.lang as _NL            # noqa: E402
+import nunavut.lang._config as _NC    # noqa: E402
+
+_REAL_YAML_LOADER = _NC.yaml_loader
+_NL.open = _fake_open                 # type: ignore  (builtins.open as seen by LanguageContextBuilder.add_config_files)
+_NC.open = _fake_open                 # type: ignore
+_NC.yaml_loader = _fake_yaml_loader   # type: ignore
+_OVK_ONLY = int(os.environ.get("C13_OVK", "-1"))            # the runner splits these two dimensions over processes
+_ONECALL_ONLY = int(os.environ.get("C13_ONECALL", "-1"))
+_SMALL = os.environ.get("C13_SMALL", "0") == "1"            # quick tier: the top-level key is absent|explicit only
+_SEC = "nunavut.lang.c"
+_BUILTIN_DOC = {_SEC: {"extension": ".h", "zz_top": DefaultValue(0), "options": {"builtin_opt": 1, "target_endianness": "any"}}}
+_BUILTIN = snap(_BUILTIN_DOC[_SEC])
+
+
+class _Loader:
+    """stands for LanguageClassLoader: owns the LanguageConfig, pre-loaded with a (small) built-in document"""
+
+    def __init__(self) -> None:
+        self.config = LanguageConfig()
+        self.config.update(copy.deepcopy(_BUILTIN_DOC))
+
+
+def _new_builder() -> LanguageContextBuilder:
+    b = object.__new__(LanguageContextBuilder)
+    b._target_language_name = "c"
+    b._target_language_config = {}
+    b._ln_loader = _Loader()
+    b._include_experimental_languages = False
+    return b
+
+
+def _filedoc(a: Sel, b: Sel):
+    """a YAML override file as parsed: the target-language section with a top-level key and a key under options"""
+    sec = {}
+    if a[0] != 0:
+        sec["zz_top"] = mk(1 if a[0] == 2 else a[0], a[1], min(a[2], 1), a[3])     # files carry explicit values only
+    if b[0] != 0:
+        sec["options"] = {"zz_opt": mk(1 if b[0] == 2 else b[0], b[1], min(b[2], 1), b[3])}
+    return {_SEC: sec} if sec else {}
+
+
+def builder_chain(a1: Sel, b1: Sel, a2: Sel, b2: Sel, ovk: int, ovv: int, one_call: bool) -> bool:
+    """
+    pre: all(s[0] in (0, 1, 3) and s[2] in (0, 1) for s in (a1, b1, a2, b2)) and 0 <= ovk <= 2
+    pre: (not _SMALL) or all(s[0] in (0, 1) and s[2] == 0 for s in (a1, a2))
+    pre: (_OVK_ONLY < 0 or ovk == _OVK_ONLY) and (_ONECALL_ONLY < 0 or one_call == (_ONECALL_ONLY == 1))
+    post: _
+    """
+    # explicit API/CLI value > later file > earlier file > built-in; a CLI *default* never displaces a file value;
+    # files are deep-merged: keys a later file does not mention keep the earlier file's value
+    _DOCS.clear()
+    _DOCS["f1"], _DOCS["f2"] = _filedoc(a1, b1), _filedoc(a2, b2)
+    b = _new_builder()
+    if one_call:
+        b.add_config_files("f1", "f2")
+    else:
+        b.add_config_files("f1")
+        b.add_config_files("f2")
+    ov = {}
+    if ovk == 1:
+        ov = {"zz_opt": ovv}
+    elif ovk == 2:
+        ov = {"zz_opt": DefaultValue(ovv)}
+    b.set_target_language_configuration_override(Language.WKCV_LANGUAGE_OPTIONS, ov)
+    # the first half of LanguageContextBuilder.create(): pending overrides are applied to the target language's section
+    # (create() itself -- with the real Language object -- is exercised by builder_isolation)
+    b.config.update_section(_SEC, b._target_language_config)
+    cfg = b.config
+    r = _BUILTIN
+    for d in (_DOCS["f1"], _DOCS["f2"]):
+        if _SEC in d:
+            r = ref_merge(r, snap(d[_SEC]))
+    r = ref_merge(r, snap({"options": ov}))
+    got = snap(cfg.sections()[_SEC])
+    if got != r:
+        return False
+    # and the reader's view through the accessor (compared by value)
+    exp_opt = dict(dict(r[1])["options"][1]).get("zz_opt")
+    seen = cfg.get_config_value_as_dict(_SEC, Language.WKCV_LANGUAGE_OPTIONS, {}).get("zz_opt")
+    if exp_opt is None:
+        return seen is None
+    return snap(seen) == exp_opt if exp_opt[0] == "m" else seen == exp_opt[1]
